@@ -23,18 +23,43 @@ package replace
 //@   assumed
 //@   modifies nothing
 
-// safety aspect: the bodies below are verified for absence of panics (C09)
+// safety aspect: the bodies below are verified for absence of panics (C09).
+//
+// Navigation model of the dependency (trusted): jsonpointer navigates the document consistently, i.e. when the JSON
+// pointer `key` resolves in the document (keyOK), the object found at its parent pointer holds the last token of the
+// key (holds): a non-nil map, a slice or tuple with that index in range, a non-nil holder object. These two facts are
+// `trusted_ensures` of getPointerFromKey / getParentFromKey: assumed by their callers, not checked against the bodies.
+
+//@ fun keyOK(sp any, key string) bool reads heaps DOC
+//@ fun holds(c any, e string) bool reads heaps DOC
+//@ fun isDoc(sp any) bool = (sp is *spec.Swagger && sp.(*spec.Swagger) != nil) || (sp is *spec.Schema && sp.(*spec.Schema) != nil)
+
+//@ axiom holdsDefs: forall c any :: forall e string :: holds(c, e) && c is spec.Definitions ==> c.(spec.Definitions) != nil
+//@ axiom holdsSchemaMap: forall c any :: forall e string :: holds(c, e) && c is map[string]spec.Schema ==> c.(map[string]spec.Schema) != nil
+//@ axiom holdsProps: forall c any :: forall e string :: holds(c, e) && c is spec.SchemaProperties ==> c.(spec.SchemaProperties) != nil
+//@ axiom holdsRespMap: forall c any :: forall e string :: holds(c, e) && c is map[string]spec.Response ==> c.(map[string]spec.Response) != nil
+//@ axiom holdsParamMap: forall c any :: forall e string :: holds(c, e) && c is map[string]spec.Parameter ==> c.(map[string]spec.Parameter) != nil
+//@ axiom holdsSchemas: forall c any :: forall e string :: holds(c, e) && c is []spec.Schema && strconv.Atoi(e).1 == nil ==> 0 <= strconv.Atoi(e) && strconv.Atoi(e) < len(c.([]spec.Schema))
+//@ axiom holdsParams: forall c any :: forall e string :: holds(c, e) && c is []spec.Parameter && strconv.Atoi(e).1 == nil ==> 0 <= strconv.Atoi(e) && strconv.Atoi(e) < len(c.([]spec.Parameter))
+//@ axiom holdsTuple: forall c any :: forall e string :: holds(c, e) && c is *spec.SchemaOrArray ==> c.(*spec.SchemaOrArray) != nil && (strconv.Atoi(e).1 == nil ==> 0 <= strconv.Atoi(e) && strconv.Atoi(e) < len(c.(*spec.SchemaOrArray).Schemas))
+//@ axiom holdsResponse: forall c any :: forall e string :: holds(c, e) && c is *spec.Response ==> c.(*spec.Response) != nil
+//@ axiom holdsResponses: forall c any :: forall e string :: holds(c, e) && c is *spec.Responses ==> c.(*spec.Responses) != nil && c.(*spec.Responses).StatusCodeResponses != nil
+//@ axiom holdsAny: forall c any :: forall e string :: holds(c, e) && c is *any ==> c.(*any) != nil
+
 //@ func getPointerFromKey(sp, key)
 //@   aspect safe
-//@   requires len(key) >= 1
+//@   requires len(key) >= 1 && isDoc(sp)
 //@   modifies nothing
+//@   trusted_ensures result2 == nil ==> keyOK(sp, key)
 //@ func getParentFromKey(sp, key)
 //@   aspect safe
-//@   requires len(key) >= 1
+//@   requires len(key) >= 1 && isDoc(sp)
 //@   modifies nothing
+//@   trusted_ensures result3 == nil && keyOK(sp, key) ==> holds(result2, result1)
+//@   trusted_ensures result3 == nil ==> keyOK(sp, "#" + result)
 //@ func UpdateRef(sp, key, ref)
 //@   aspect safe
-//@   requires len(key) >= 1
+//@   requires len(key) >= 1 && isDoc(sp)
 //@   modifies heaps DOC
 //@ func UpdateRefWithSchema(sp, key, sch)
 //@   aspect safe
@@ -46,9 +71,10 @@ package replace
 //@   modifies heaps DOC
 //@ func rewriteParentRef(sp, key, ref)
 //@   aspect safe
-//@   requires len(key) >= 1 && sp != nil
+//@   requires len(key) >= 1 && sp != nil && keyOK(box(sp), key)
 //@   modifies heaps DOC
 //@ func DeepestRef(sp, opts, ref)
 //@   aspect safe
 //@   requires sp != nil
 //@   modifies nothing
+//@   ensures result1 == nil ==> result != nil
